@@ -8,7 +8,7 @@ CONSTANTS
   VersionsOf <- H2Versions
   DiskOf <- H2Disk
   EventKinds <- HKinds2
-  MaxLen = 3
+  MaxLen = 4
   MaxQueries = 3
 SPECIFICATION Spec
 CHECK_DEADLOCK FALSE
